@@ -77,7 +77,12 @@ func TestVerifC08Histories(t *testing.T) {
 		t.Repeat(map[string]func(*rapid.T){
 			"del-claim": func(t *rapid.T) { step(act{Op: "del-claim", I: idx(t), FG: rapid.Bool().Draw(t, "fg")}) },
 			"del-xr":    func(t *rapid.T) { step(act{Op: "del-xr", I: idx(t), FG: rapid.Bool().Draw(t, "fg")}) },
-			"del-xrd":   func(t *rapid.T) { step(act{Op: "del-xrd", FG: rapid.Bool().Draw(t, "fg")}) },
+			"del-xrd": func(t *rapid.T) {
+				// Deleting the XRD tears the whole universe down; keep some histories in which it comes late or never.
+				if rapid.IntRange(0, 2).Draw(t, "really") == 0 {
+					step(act{Op: "del-xrd", FG: rapid.Bool().Draw(t, "fg")})
+				}
+			},
 			"del-rev":   func(t *rapid.T) { step(act{Op: "del-rev", FG: rapid.Bool().Draw(t, "fg")}) },
 			"del-composed": func(t *rapid.T) {
 				tm := []string{"r0", "r1"}[:u.Templates]
@@ -92,6 +97,7 @@ func TestVerifC08Histories(t *testing.T) {
 			"rec-off":      func(t *rapid.T) { step(drawFault(t, act{Op: "rec-off"})) },
 			"rec-rev":      func(t *rapid.T) { step(drawFault(t, act{Op: "rec-rev"})) },
 			"rec-usage":    func(t *rapid.T) { step(drawFault(t, act{Op: "rec-usage", I: idx(t)})) },
+			"rec-usage2":   func(t *rapid.T) { step(act{Op: "rec-usage", I: idx(t)}) },
 			"gc":           func(t *rapid.T) { step(act{Op: "gc"}) },
 			"gc2":          func(t *rapid.T) { step(act{Op: "gc"}) },
 			"establish":    func(t *rapid.T) { step(act{Op: "establish"}) },
@@ -277,7 +283,7 @@ func TestVerifC08Exhaustive(t *testing.T) {
 			rec.AddExtra(fmt.Sprintf("dfs_states_faults_%v", pass.faults), d.states)
 			rec.AddExtra(fmt.Sprintf("dfs_edges_faults_%v", pass.faults), d.edges)
 			rec.AddExtra(fmt.Sprintf("dfs_pruned_faults_%v", pass.faults), d.pruned)
-			rec.Extra(fmt.Sprintf("dfs_depth_faults_%v", pass.faults), pass.depth)
+			rec.Extra(fmt.Sprintf("dfs_depth_faults_%v", pass.faults), fmt.Sprint(pass.depth))
 			rec.Labelf("dfs fg=%v faults=%v depth=%d", fg, pass.faults, pass.depth)
 		}
 	}
